@@ -17,7 +17,8 @@ ASSUMPTIONS = cc.ASSUMPTIONS_CORE
 
 
 def extra(tier, rng):
-    return []
+    import coregen
+    return [coregen.override_family(rng) for _ in range(150 if tier == "quick" else 3000)]
 
 
 def plan(tier, seed):
